@@ -86,6 +86,8 @@ type FnExec struct {
 	allocName string
 	mode     string // "full" or "safety"
 	mutSlices map[ssa.Value]Val
+	waived      []string
+	inTypeInv   bool
 	inContractApply bool
 	zeroInit    bool
 	nosafetyAssumed int
@@ -165,6 +167,12 @@ func (fx *FnExec) havocAll(h *Heap) {
 			keep[n] = fx.heapVar(h, n, fx.e.heapSort[n])
 		}
 	}
+	// immutable fields: written only while the object is being constructed
+	for _, n := range fx.e.cs.Immutable {
+		if _, ok := fx.e.heapSort[n]; ok {
+			keep[n] = fx.heapVar(h, n, fx.e.heapSort[n])
+		}
+	}
 	oldMono := map[string]string{}
 	for _, n := range fx.e.cs.Monotone {
 		if srt, ok := fx.e.heapSort[n]; ok {
@@ -206,9 +214,16 @@ func (fx *FnExec) assume(t string) {
 	fx.c.assert(sImp(fx.curReach, t))
 }
 
-var safetyClasses = map[string]bool{"monotone": true, "nil": true, "idx": true, "assert": true, "div": true, "unreachable": true, "makeslice": true}
+var safetyClasses = map[string]bool{"immutable": true, "monotone": true, "boxnil": true, "typeinv": true, "nil": true, "idx": true, "assert": true, "div": true, "unreachable": true, "makeslice": true}
 
 func (fx *FnExec) oblige(class, label, goal, text string, p token.Pos) *Obligation {
+	if fx.con != nil {
+		if why, ok := fx.con.Flags["waive:"+class]; ok {
+			fx.waived = append(fx.waived, class+": "+why)
+			fx.assume(goal)
+			return &Obligation{}
+		}
+	}
 	if safetyClasses[class] && fx.con != nil && hasFlag(fx.con, "nosafety") {
 		// panic-freedom of this function is not claimed here: assumed
 		fx.nosafetyAssumed++
@@ -353,6 +368,8 @@ func (fx *FnExec) wellTyped(v Val, h *Heap) string {
 				alts = append(alts, sEq(v.L[0], intLit(int64(id))))
 			}
 			facts = append(facts, sOr(alts...))
+			// closed-world node interfaces never hold a nil pointer (checked wherever a pointer is boxed into one)
+			facts = append(facts, sImp(sNot(sEq(v.L[0], "0")), sNot(sEq(v.L[1], "0"))))
 		}
 		// a nil interface has a nil payload
 		facts = append(facts, sImp(sEq(v.L[0], "0"), sEq(v.L[1], "0")))
@@ -522,8 +539,20 @@ func (fx *FnExec) storeField(h *Heap, addr string, owner types.Type, idx int, v 
 	}
 }
 
+func (fx *FnExec) isImmutable(name string) bool {
+	for _, n := range fx.e.cs.Immutable {
+		if n == name {
+			return true
+		}
+	}
+	return false
+}
+
 // monotoneCheck: guarantee side of a `monotone` declaration - a write does not reset a set entry
 func (fx *FnExec) monotoneCheck(name, old, addr, v string) {
+	if !fx.zeroInit && !fx.inContractApply && fx.con != nil && fx.isImmutable(name) && fx.allocName != "" {
+		fx.oblige("immutable", "", sLe(fx.allocName, addr), name+" is written only on an object allocated by the writing function", token.NoPos)
+	}
 	if fx.zeroInit || fx.inContractApply || fx.con == nil || !fx.isMonotone(name) {
 		return
 	}
